@@ -269,6 +269,17 @@ pub fn grid() -> Vec<String> {
             }
             v.push(format!("poll {} nophc ; {}", t0, iter_text(a, a, a + 1000, "fnone", &trk_text(&simple_trk(rep)))));
         }
+        // every single-bit neighbour of the configured reference id (incl. the ASCII letter-case bits),
+        // its byte-swapped and rotated forms: only the exact id may match
+        if t0 == 0 {
+            let mut reps: Vec<u32> = (0..32).map(|b| PHC0 ^ (1u32 << b)).collect();
+            reps.extend([PHC0.swap_bytes(), PHC0.rotate_left(8), PHC0.rotate_right(8), PHC0 ^ 0x2020_2000, PHC0 | 0x2020_2020, PHC0 & 0xffff_ff00]);
+            for rep in reps {
+                for f in ["fok 12345", "funread"] {
+                    v.push(format!("poll {} phc {} ; {}", t0, PHC0, iter_text(a, a, a + 1000, f, &trk_text(&simple_trk(rep)))));
+                }
+            }
+        }
         // PHC read failure with a slow sysfs read: the grace read 5 s -1/0/+1 ns after the reply
         for &d in &[-1i64, 0, 1, G] {
             v.push(format!("poll {} phc {} ; {} ; {}", t0, PHC0,
